@@ -4,7 +4,7 @@ ID = "C18"
 LEVEL = "other"
 TAGS = ("C18",)
 CONTRACT_MODULES = ALL_CONTRACTS
-FUNCTIONS = []
+FUNCTIONS = ["GcodeParser.GcodeParser.parse"]
 ASSUMPTIONS = ["A2", "A4"]
 
 
@@ -23,20 +23,39 @@ def line_pattern_lemmas(edits):
 
 LEMMAS = [line_pattern_lemmas]
 BOUNDED = [script("parser_roundtrip.py")]
-EXPLANATION = ("Deductive part: (a) the line pattern, translated mechanically from the pattern text in the real source to a z3 "
+EXPLANATION = ("Deductive part: (b) GcodeParser.parse, executed symbolically from an ARBITRARY prior parser state on an arbitrary source text "
+               "and offset, against the structural contract of the line pattern derived from the pattern text (some derivation of the "
+               "pattern covers the matched slice; priorities not modelled): the pieces it keeps (leading blanks, text, raw checksum, "
+               "trailing blanks, comment, eol) re-assemble to exactly the matched text, fullText is the consumed slice of the source, "
+               "and a parse that does not start at the end of the text consumes at least one character; (a) the line pattern, translated mechanically from the pattern text in the real source to a z3 "
                "regular expression, matches at every offset of every text (regex universality query) and matches the empty string only "
                "at the end of the text (progress), so parseLines consumes any input completely. Bounded part (labelled bounded, not "
                "counted under obligations): losslessness of fullText, stability of commandString under re-parsing and checksum "
                "validation are checked exhaustively on all strings up to a length bound over one representative per character class "
                "of the pattern plus all sequences of up to three template lines -- they depend on which derivation the backtracking "
                "engine picks, which a contract on the pattern cannot express.")
-TECHNIQUE = "regex-language lemmas from the real pattern text (z3 sequence theory) + bounded exhaustive round-trip check of the real parser"
+TECHNIQUE = "contract on parse() over the structural contract of the real pattern (z3 strings, cvc5 --strings-exp as second back end) + regex-language lemmas + bounded exhaustive round-trip check of the real parser"
 EXTRA_ASSUMPTIONS = ["the digit class is ASCII 0-9 in the regex translation and in the bounded alphabets"]
-BREAKERS = [
-    {"module": "GcodeParser", "old": "    r\"[^;\\r\\n]*?\" +\n", "new": "    r\"[^;*\\r\\n]*?\" +\n", "desc": "catch-all alternative no longer accepts '*'",
-     "functions": [], "lemmas": True},
-    {"module": "GcodeParser", "old": "        else:\n            # Don't retain the checksum text of a previously parsed line\n            self._rawChecksum = None\n", "new": "",
-     "desc": "stale raw checksum (original F11)", "functions": [], "bounded": True},
-    {"module": "GcodeParser", "old": "PAT_EOL = r\"(\\r\\n|\\r|\\n|\\Z)\"", "new": "PAT_EOL = r\"(\\r\\n|\\r|\\n|)\"", "desc": "line pattern may match the empty string anywhere",
-     "functions": [], "lemmas": True},
-]
+BREAKERS = [{'desc': "catch-all alternative no longer accepts '*'",
+  'functions': [],
+  'lemmas': True,
+  'module': 'GcodeParser',
+  'new': '    r"[^;*\\r\\n]*?" +\n',
+  'old': '    r"[^;\\r\\n]*?" +\n'},
+ {'desc': 'line pattern may match the empty string anywhere',
+  'functions': [],
+  'lemmas': True,
+  'module': 'GcodeParser',
+  'new': 'PAT_EOL = r"(\\r\\n|\\r|\\n|)"',
+  'old': 'PAT_EOL = r"(\\r\\n|\\r|\\n|\\Z)"'},
+ {'desc': 'checksum text not stripped from text (appears twice in fullText)',
+  'functions': ['GcodeParser.GcodeParser.parse'],
+  'module': 'GcodeParser',
+  'new': '            pass\n',
+  'old': '            self.text = self.text[:-len(self._rawChecksum)]\n'},
+ {'bounded': True,
+  'desc': 'stale raw checksum (original F11)',
+  'functions': ['GcodeParser.GcodeParser.parse'],
+  'module': 'GcodeParser',
+  'new': '',
+  'old': "        else:\n            # Don't retain the checksum text of a previously parsed line\n            self._rawChecksum = None\n"}]
